@@ -141,6 +141,14 @@ CHECKS = {
             'the fault, no Decompressor::read()/read(2) on the Reader\'s fd after close() returned, thread and fd sets back to the baseline.',
             'Liveness decided as bounded progress (120 s watchdog + driver stall oracle). TSan reports through the exception_ptr reference count of the uninstrumented libstdc++ are suppressed (lib/tsan.supp).',
             'DESIGN.md section 2 C07'),
+    'C08': ('fault_enumeration', 'OS-level fault injection (RLIMIT_FSIZE/EFBIG at byte offsets in a forked child; strace -e inject on the n-th write, fsync, close) and throwing mock Compressor / unencodable input, with file re-decoding as oracle (ASan and TSan builds)',
+            'For 16 configurations (xml/pbf/opl x none/gzip/bzip2 x fsync) the Writer scenario (several buffers, optional flush, close) runs with the kernel refusing the first write that '
+            'reaches offset o (first/last offsets densely, seeded ones between, control runs at the full size), with strace failing the n-th write (ENOSPC/EIO), fsync or close of the output file, '
+            'with a Compressor that throws in its constructor, k-th write or close, and with an OPL string that cannot be encoded (failure in a pool worker). A fault that demonstrably fired must '
+            'surface as an exception from operator(), flush() or close(); afterwards operator() throws io_error; destructor returns, threads back at baseline; a normal close() means size == stat size '
+            'and the file decodes to exactly the objects written.',
+            'A fault counts only when it demonstrably fired ((INJECTED) in the strace log, offset below the full size, mock call counter); other runs are inconclusive. Liveness as bounded progress.',
+            'DESIGN.md section 2 C08'),
 }
 
 NOT_YET = 'check not built yet (work in progress, see DESIGN.md section 6)'
